@@ -212,12 +212,63 @@ class IdentityRun(PubSubRun):
             self.t(f"{p.name} leaves ({way})")
         self.w.quiesce()
 
+    def step_drop_reconnect(self):
+        """the network drops a real client's connection (both ends see a reset); the same Client
+        object then connects again through the public API"""
+        from pyrtma.exceptions import ClientError
+        ch = self.ch
+        live = [p for p in self.parts if isinstance(p, ClientActor) and p.alive and p.connected_ok and p.cm is None]
+        if not live:
+            return
+        p = ch.choose("id.dropwho", live)
+        cs = p.sock
+        ms = cs.peer
+        # both directions reset, as after a network failure
+        cs.rx_rst = 2
+        ms.rx_rst = 2
+        self.t(f"{p.name}: the network resets its connection")
+        try:
+            p.client.send_module_ready()
+            p.client.send_module_ready()
+        except ClientError:
+            pass
+        if p.client.connected:
+            # the client has not noticed yet (its writes went into the void): reading notices it
+            try:
+                p.client.read_message(timeout=0)
+            except ClientError:
+                pass
+        self.w.quiesce()
+        self.res.probes["connection_dropped"] += 1
+        if p.client.connected:
+            return
+        o = p.opts
+        idx = len(self.attempts)
+        att = dict(via="client", opts=o, idx=idx, outcome=None, part=p, reconnect=True)
+        self.t(f"{p.name} reconnects (same Client object) id={o['rid']} multi={o['multi']} logger={o['logger']}")
+        try:
+            p.client.connect(f"127.0.0.1:{self.w.PORT}", logger_status=o["logger"], daemon_status=o["daemon"],
+                             allow_multiple=o["multi"])
+            p.client.subscribe([T])
+            p.connected_ok = True
+        except ClientError as e:
+            att["error"] = type(e).__name__
+            p.client._connected = False
+            p.connected_ok = False
+        if p.sock is not None and p.sock.kind == "conn":
+            att["conn"] = p.conn
+        self.attempts.append(att)
+        self.res.probes["reconnect_same_client"] += 1
+        self.w.quiesce()
+        self.after_step(att)
+
     def step_dyn_burst(self):
         """enough dynamic connects to wrap the dynamic-id cursor, some ids held live"""
         ch = self.ch
-        n = ch.choose("id.burst", [30, 95, 110, 130])
-        hold_every = ch.choose("id.hold", [7, 13, 50])
-        self.t(f"{n} sequential dynamic connects, every {hold_every}th stays connected")
+        n = ch.choose("id.burst", [30, 95, 110, 130, 230])
+        hold_every = ch.choose("id.hold", [3, 7, 13, 50])
+        random_hold = ch.flag("id.randhold", 1, 2)
+        self.t(f"{n} sequential dynamic connects, {'about ' if random_hold else ''}every {hold_every}th stays connected")
         self.res.probes[f"dyn_burst_{n}"] += 1
         for i in range(n):
             a = self.new_actor(f"d{len(self.actors)}")
@@ -231,9 +282,16 @@ class IdentityRun(PubSubRun):
             self.attempts.append(att)
             self.w.quiesce()
             self.after_step(att, light=True)
-            if i % hold_every:
+            keep = (not ch.flag("id.release", hold_every - 1, hold_every)) if random_hold else (i % hold_every == 0)
+            if not keep:
                 a.leave("fin")
                 self.w.quiesce()
+            elif ch.flag("id.release_old", 1, 3):
+                # an older holder leaves instead: the table order no longer follows the id order
+                old = [q for q in self.parts if isinstance(q, Actor) and q.alive and q.name.startswith("d") and q is not a]
+                if old:
+                    ch.choose("id.oldwho", old).leave("fin")
+                    self.w.quiesce()
 
     # ------------------------------------------------------------------ per-step observation
     def acked_id(self, p):
@@ -308,15 +366,17 @@ class IdentityRun(PubSubRun):
             self.setup()
             ch = self.ch
             n = 2 + ch.pick("id.nsteps", 12)
-            did_burst = False
+            bursts = 0
             for _ in range(n):
-                k = ch.weighted("id.step", [(8, "connect"), (3, "disconnect"), (1, "burst")])
+                k = ch.weighted("id.step", [(8, "connect"), (3, "disconnect"), (1, "burst"), (2, "drop")])
                 if k == "connect":
                     self.step_connect()
                 elif k == "disconnect":
                     self.step_disconnect()
-                elif not did_burst:
-                    did_burst = True
+                elif k == "drop":
+                    self.step_drop_reconnect()
+                elif bursts < 2:
+                    bursts += 1
                     self.step_dyn_burst()
             self.finish()
             self.oracles()
